@@ -483,6 +483,7 @@ namespace {
    void explore(const Config& cfg, std::vector<int> prefix, int bound, long long& budget)
    {
       if (opt.expired() or budget <= 0) { rep.cap("schedule budget or deadline reached in " + config_text(cfg)); return; }
+      opt.kick();
       Execution x;
       execute(cfg, prefix, x);
       --budget;
